@@ -1078,3 +1078,100 @@ def validate_first_wide(ck, F, rule="VALIDATE-FIRST"):
               "%s can return an error it constructs itself after it already wrote persistent state (%s): the failed call leaves a change behind"
               % (name, first), f, l, sample={"fn": name, "first_writes": first})
     ck.note("editing_entry_points", n)
+
+
+def axis_flags(ck, F, rule="FULL-RANGE"):
+    """full_row belongs to the row axis, full_column to the column axis: in stringify_reference an arm of DisplaceData that
+    rewrites the local `row` never tests `full_column`, and one that rewrites `column` never tests `full_row` (a whole-
+    column range B:B has full_row set and must still follow column moves)."""
+    from mir import enum_switches, arm_region
+    DD = "ironcalc_base::expressions::parser::stringify::DisplaceData"
+    b = ck.need(F.one, "stringify::stringify_reference")
+    names = {b.local_name(i): i for i in range(1, b.nargs + 1)}
+    rowl = [l for l in range(len(b.locals)) if b.local_name(l) == "row" and l > b.nargs]
+    coll = [l for l in range(len(b.locals)) if b.local_name(l) == "column" and l > b.nargs]
+    sws = enum_switches(b, DD)
+    if not sws or "full_row" not in names or not rowl or not coll:
+        ck.ob(rule, "stringify_reference|axis anchors", False, "DisplaceData match / flags / row, column locals not found", b.file, b.line)
+        return
+    sw_bi, arms = sws[0][0], sws[0][1]
+    # blocks shared by all arms (the code after the match) are not part of any arm
+    regions = {v: arm_region(b, sw_bi, e) for v, e in arms.items() if e is not None}
+    shared = set.intersection(*regions.values()) if regions else set()
+    for v, reg in sorted(regions.items()):
+        own = reg - shared
+        writes_row = any(not place_proj(s["p"]) and s["p"]["l"] in rowl for bi in own for s in b.blocks[bi]["s"])
+        writes_col = any(not place_proj(s["p"]) and s["p"]["l"] in coll for bi in own for s in b.blocks[bi]["s"])
+        tested = set()
+        for bi in own:
+            t = b.blocks[bi]["t"]
+            if t["k"] == "switch" and t["ty"] == "bool":
+                tr = b.trace(t["o"])
+                if tr["kind"] == "arg":
+                    tested.add(b.local_name(tr["local"]))
+                else:
+                    p = op_place(t["o"])
+                    rv = b.def_rvalue(p["l"]) if p is not None and not place_proj(p) else None
+                    if rv is not None and rv["k"] == "un":
+                        tr2 = b.trace(rv["a"])
+                        if tr2["kind"] == "arg":
+                            tested.add(b.local_name(tr2["local"]))
+        f, l = b.loc(arms[v])
+        if writes_row and not writes_col:
+            ck.ob(rule, "stringify_reference|%s arm (rows) does not test full_column" % v, "full_column" not in tested,
+                  "the DisplaceData::%s arm moves rows but is guarded by `full_column`: whole-row ranges like 2:2 stop following their rows" % v, f, l)
+        elif writes_col and not writes_row:
+            ck.ob(rule, "stringify_reference|%s arm (columns) does not test full_row" % v, "full_row" not in tested,
+                  "the DisplaceData::%s arm moves columns but is guarded by `full_row`: whole-column ranges like B:B stop following their columns" % v, f, l)
+
+
+def grid_bounds(ck, F, rule="FULL-RANGE"):
+    """The printer accepts every cell of the grid: wherever stringify_reference tests the row or column it is about to
+    print against a constant range (`(a..b).contains(&row)`), the range covers 1..=LAST_ROW resp. 1..=LAST_COLUMN; and a
+    comparison of row/column with a constant near the grid limit rejects nothing inside the grid."""
+    import zones
+    from effects import Program
+    LAST = {"row": 1048576, "column": 16384}
+    b = ck.need(F.one, "stringify::stringify_reference")
+    A = zones.Analysis(b, Program(F), F)
+    n = 0
+    for bi, t in b.calls():
+        q = b.callee_q(t) or ""
+        if q.rsplit("::", 1)[-1] != "contains" or "Range" not in q or len(t["args"]) != 2:
+            continue
+        rng = A._const_range(t["args"][0])
+        xl = A._ref_local(t["args"][1])
+        nm = b.local_name(xl) if xl is not None else None
+        if rng is None or nm not in LAST:
+            continue
+        n += 1
+        f, l = b.loc(bi)
+        ck.ob(rule, "stringify_reference|%s range test covers the grid" % nm, rng[0] <= 1 and rng[1] >= LAST[nm],
+              "stringify_reference accepts %s only in %d..=%d: references to %s %d are printed as #REF! although they are valid"
+              % (nm, rng[0], rng[1], nm, LAST[nm]), f, l, sample={"axis": nm, "range": list(rng)})
+    # plain comparisons with a constant close to the limit
+    for bi, si, s in b.stmts():
+        rv = s["rv"]
+        if rv["k"] != "bin" or rv["op"] not in ("Lt", "Le", "Gt", "Ge"):
+            continue
+        for x, y, flip in ((rv["a"], rv["b"], False), (rv["b"], rv["a"], True)):
+            c = const_int(y)
+            tr = b.trace(x)
+            p = op_place(x)
+            nm = None
+            if p is not None and not place_proj(p):
+                rvx = b.def_rvalue(p["l"])
+                q = op_place(rvx["o"]) if rvx is not None and rvx["k"] == "use" else p
+                nm = b.local_name(q["l"]) if q is not None and not place_proj(q) else b.local_name(p["l"])
+            if c is None or nm not in LAST or c < LAST[nm] - 2:
+                continue
+            op = rv["op"]
+            if flip:
+                op = {"Lt": "Gt", "Le": "Ge", "Gt": "Lt", "Ge": "Le"}[op]
+            # the comparison is true for some x in 1..=LAST and false for others only if c cuts inside the grid
+            cuts = (op in ("Lt", "Ge") and c <= LAST[nm]) or (op in ("Le", "Gt") and c < LAST[nm])
+            n += 1
+            f, l = b.loc(bi, si)
+            ck.ob(rule, "stringify_reference|%s %s %d does not cut the grid" % (nm, op, c), not cuts,
+                  "stringify_reference compares %s %s %d: the last %s of the grid falls on the other side of the test than the rest" % (nm, op, c, nm), f, l)
+    ck.note("grid_bound_tests", n)
